@@ -1,3 +1,3 @@
 -- Root of the `Physt` library: the executable model, the driver, and every property theorem.
-import Physt.Driver
+import Physt.DriverND
 import Physt.Theorems.C01
